@@ -83,6 +83,34 @@ def _guard_facts(f):
     return MustFacts(cfg, kills=kills)
 
 
+def _until_operands(f, rr):
+    """Lvalue texts that carry the rule's UNTIL: rr->until itself and every local defined (possibly through copies and helper results) from
+    it.  Returns {text: passes_through_rescale}."""
+    cfg = f.cfg
+    U = {"%s->until" % rr: False}
+    changed = True
+    while changed:
+        changed = False
+        for b, i, x, line in cfg.all_elems():
+            for l, kind, n in writes(x):
+                l_ = strip_casts(l)
+                if l_.get("k") != "ref":
+                    continue
+                rhs = n.get("init") if kind == "decl" else (n.get("r") if n.get("k") == "bin" and n["op"] == "=" else None)
+                if rhs is None:
+                    continue
+                r = cfg.resolve(rhs)
+                srcs = [u for u in U if any(lv(m) == u for m in walk(r) if m.get("k") in ("ref", "mem"))]
+                if not srcs:
+                    continue
+                resc = any(U[u] for u in srcs) or any(m.get("k") == "call" and m.get("fn") == "echs_instant_rescale" for m in walk(r))
+                t = lv(l_)
+                if t not in U or (resc and not U[t]):
+                    U[t] = resc or U.get(t, False)
+                    changed = True
+    return U
+
+
 def r16_2(prog, rep):
     rid = "R16.2"
     fl = fillers.fillers(prog)
@@ -91,6 +119,7 @@ def r16_2(prog, rep):
         tgt = f.params[0]["n"]
         rr = f.params[2]["n"]
         mf = _guard_facts(f)
+        U = _until_operands(f, rr)
         # commits: increments of the result index used in tgt stores
         idxvars = set()
         for b, i, idx, x, line in fillers.tgt_stores(f):
@@ -115,7 +144,7 @@ def r16_2(prog, rep):
         has_tod = any(n.get("k") == "mem" and n["f"] in ("H", "M", "S") and lv(n).startswith("e.") for b, i, x, line in cfg.all_elems() for n in walk(x))
         for ci, (b, i, val, line) in enumerate(commits):
             facts = mf.at(b, i) or set()
-            until_ok = ("false", "echs_instant_lt_p(%s->until, %s)" % (rr, val)) in facts
+            until_ok = any(("false", "echs_instant_lt_p(%s, %s)" % (u, val)) in facts for u in U)
             key = "%s/commit#%d/until" % (f.name, ci)
             if until_ok:
                 rep.ok(rid, key, f.loc(line), "commit of %s is dominated by !echs_instant_lt_p(%s->until, %s)" % (val, rr, val))
@@ -134,7 +163,7 @@ def r16_2(prog, rep):
             if c is None:
                 continue
             for a in cond_atoms(c, True):
-                if len(a) == 3 and a[0] == "true" and a[1].startswith("echs_instant_lt_p(%s->until" % rr):
+                if len(a) == 3 and a[0] == "true" and any(a[1].startswith("echs_instant_lt_p(%s," % u) for u in U):
                     st = (cfg.blocks[bb].succs[0], -1)
                     hits, _ = forward_scan(cfg, st, lambda b_, i_, x_: "hit" if any(kind == "incdec" and lv(l) in idxvars for l, kind, n in writes(x_)) else None)
                     key = "%s/until-true-edge-leaves" % f.name
@@ -153,6 +182,41 @@ def r16_2(prog, rep):
                 rep.fail(rid, "%s/poss-shift-before-guards" % f.name, f.loc(), "BYSETPOS selection / SHIFT are not applied before the guarded commit")
     if len(fl) != 7:
         rep.broken_("rule=R16.2 expected 7 fillers, found %d" % len(fl))
+
+
+def r16_5(prog, rep):
+    """UNTIL is a gregorian instant; a filler that builds its candidates in the rule's scale (it asks echs_scale_ndim/echs_scale_wday about
+    that scale) must compare them with UNTIL expressed in the same scale, i.e. the UNTIL operand passes through echs_instant_rescale()."""
+    rid = "R16.5"
+    n = 0
+    for f in fillers.fillers(prog):
+        cfg = f.cfg
+        rr = f.params[2]["n"]
+        scaled = any(c.get("fn") in ("echs_scale_ndim", "echs_scale_wday") or (c.get("fn") or "").startswith("fill_") and any("sca" in lv(a) for a in c["a"])
+                     for b, i, c, line in f.all_calls())
+        if not scaled:
+            continue
+        n += 1
+        U = _until_operands(f, rr)
+        used = set()
+        for bb in cfg.blocks:
+            c = cfg.cond(bb)
+            if c is None:
+                continue
+            for a in cond_atoms(c, True) + cond_atoms(c, False):
+                if len(a) == 3:
+                    for u in U:
+                        if a[1].startswith("echs_instant_lt_p(%s," % u):
+                            used.add(u)
+        key = "%s/until-in-rule-scale" % f.name
+        if used and all(U[u] for u in used):
+            rep.ok(rid, key, f.loc(), "UNTIL is compared as %s, which went through echs_instant_rescale()" % ", ".join(sorted(used)))
+        else:
+            rep.fail(rid, key, f.loc(), "%s builds its candidates in the rule's scale but compares them with the gregorian UNTIL as it was parsed (%s): for "
+                     "SCALE=HIJRI rules a gregorian UNTIL (year 2000) is measured against hijri years (1420) and never ends the stream" % (
+                         f.name, ", ".join(sorted(used)) or "no UNTIL test"))
+    if n < 4:
+        rep.broken_("rule=R16.5 expected >=4 scale-aware fillers, found %d" % n)
 
 
 def r16_3(prog, rep):
@@ -342,6 +406,8 @@ def run(prog, rep, tier, snap):
     rep.call(r16_2, prog, rep)
     rep.rule("R16.3", "COUNT accounting: clamp in every filler, decrement in refill", 9)
     rep.call(r16_3, prog, rep)
+    rep.rule("R16.5", "UNTIL is compared in the scale the candidates are built in", 4)
+    rep.call(r16_5, prog, rep)
     rep.rule("R16.4", "SHIFT candidate sets are emitted in year order and paired with the offsets shift() files them under", 2)
     rep.call(r16_4, prog, rep)
     rep.rule("R09.1", "bounded occurrence-cache writes (shared with C09)", 10)
